@@ -150,6 +150,9 @@ def compare(path):
         fl = s["sh_flags"]
         for bit, ch in ((1, "W"), (2, "A"), (4, "X"), (0x40, "I")):
             eq(f"[{i}] flag {ch}", bool(fl & bit), ch in r["flags"])
+    if e.failing():
+        # the reader itself flags the file: readelf may refuse to show tables the reader still decodes
+        return bad
     # symbols
     for idx, entries in e.symtabs.items():
         rs = v["symtabs"].get(e.names[idx])
